@@ -25,7 +25,7 @@ def session(sess, suite, n, t, kind):
         return
     kps = keypkgs(sess, suite, shares)
     allids = list(kps.keys())
-    signers = rng.sample(allids, rng.randrange(t, n + 1))
+    signers = rng.sample(allids, rng.randrange(max(t, min(n, 3)) if real else t, n + 1))   # real suites: at least 3 signers, so that several cheaters fit
     msg = rand_msg(rng)
     nonces = {i: commit(sess, suite, kp_fields(kps[i])["share"]) for i in signers}
     comms = comms_str(nonces)
@@ -57,8 +57,17 @@ def session(sess, suite, n, t, kind):
         sess.oracle(not v0.ok, "randomized signature verifies under the original group key", rp())
     # tampering between coordinator and one participant: seed bit / one commitment
     victim = rng.choice(signers)
-    for what in ("seed", "commitment"):
-        if what == "seed":
+    for what in ("seed", "commitment", "hiding commitment only", "binding commitment only"):
+        if what.endswith("only"):
+            # exactly one of the two commitments of one signer differs (identifier and the other commitment untouched)
+            other = rng.choice(signers)
+            fresh = nonces_fields(commit(sess, suite, kp_fields(kps[other])["share"]))
+            old = nonces_fields(nonces[other])
+            n2 = dict(nonces)
+            n2[other] = ":".join([old["hid"], old["bnd"], fresh["D"] if what.startswith("hiding") else old["D"], fresh["E"] if what.startswith("binding") else old["E"]])
+            g2 = sess.call("randomizer %s seed=%s comms=%s" % (suite, seed, comms_str(n2)), EXACT, "randomizer")
+            tz = None
+        elif what == "seed":
             b = bytearray.fromhex(seed)
             b[rng.randrange(len(b))] ^= 1 << rng.randrange(8)
             tz = sess.call("rand_sign %s msg=%s comms=%s nonces=%s kp=%s seed=%s" % (suite, msg, comms, nonces[victim], kps[victim], b.hex()), CLASS, "rand_sign-tamperedseed")
@@ -105,6 +114,11 @@ def session(sess, suite, n, t, kind):
         cf = comms_str({i: nonces[i] for i in few})
         s = sess.call("rand_sign %s msg=%s comms=%s nonces=%s kp=%s seed=%s" % (suite, msg, cf, nonces[few[0]], kps[few[0]], seed), EXACT, "rand_sign-few")
         sess.oracle(s.err == "IncorrectNumberOfCommitments", "threshold not enforced under randomization (%s)" % s.raw, rp())
+        # coordinator side: fewer shares than the threshold recorded in the public key package, every mode
+        fake = {i: fld.enc(fld.rand(rng)) for i in few}
+        for mode in ("first", "all", "disabled"):
+            a4 = sess.call("rand_aggregate %s msg=%s comms=%s shares=%s pkp=%s mode=%s r=%s" % (suite, msg, cf, shares_str(fake), pkp, mode, rand), CLASS, "rand_aggregate-few")
+            sess.oracle(a4.err == "IncorrectNumberOfShares", "re-randomized aggregation (%s) does not refuse fewer shares than the threshold (%s)" % (mode, a4.raw[:60]), rp())
     # explicit randomizers, zero included (deprecated entry point `sign` with a Randomizer)
     for alpha in (0, fld.rand(rng)):
         ah = fld.enc(alpha)
